@@ -10,6 +10,8 @@ def main(tier, seed):
     c = Check("C02", tier, seed)
     jobs, bounds = scripted_jobs("C02", "c02", QUICK, tier, seed, extra=dict(skip_running_acts=True))
     c.run_jobs(jobs)
+    if tier != "quick":
+        c.run_kani(['state_predicates_partition'])
     return c.finish(
         rule="one path = scenario x valuation class of the symbolic inputs x (target task, symbolic action kind) per script step x schedule",
         assumptions=ASSUME + ["'reported terminal' = a task event was emitted for the task while in a terminal state"],
